@@ -1,5 +1,4 @@
-(* C16 proofs, layer 3c: every query of a well-formed store answers like the sorted map of its leaves (with
-   TotalAccumulatedValue as the code computes it), and the set-only refinement theorem. *)
+(* C16 proofs, layer 3c: every query of a well-formed store answers like the sorted map of its leaves, and the set-only refinement theorem. *)
 From Coq Require Import ZArith List Bool Lia Sorted.
 Import ListNotations.
 From Osmo Require Import C16.Model C16.Spec C16.Statement C16.Keys C16.Assoc C16.StoreLemmas C16.Views C16.Flat C16.Upper
@@ -62,8 +61,8 @@ Proof.
     + destruct Hne; congruence.
   - intros h. unfold prefix_sum, subset_acc, sm_prefix. rewrite (wf_split m st _ W). cbn [bind sm_split]. f_equal.
     rewrite subset_none_some, Hex; auto.
-  - unfold total_acc, subset_acc. rewrite (wf_split m st _ W). cbn [bind sm_split]. f_equal.
-    rewrite sm_left_nil. unfold sm_exact. lia.
+  - unfold total_acc. rewrite (wf_split m st _ W). cbn [bind sm_split]. f_equal.
+    rewrite Hex. apply split_total.
   - intros q. rewrite Hex. apply split_total.
   - intros b e. apply (wf_iterate m); auto.
   - intros b e. unfold rev_iterate, sm_rev_iter. rewrite (wf_iterate m); auto.
